@@ -26,11 +26,12 @@ type Roles struct {
 	ServiceT *types.Named
 	CallT    *types.Named
 
-	Serving  []*ssa.Function // contain a call to net.Listener.Accept
-	ConnLoop []*ssa.Function // started by `go` from a serving function; read frames and dispatch
-	Handle   *ssa.Function   // Service.HandleMessage (exported API)
-	WFuncs   []*ssa.Function // functions in package varlink that Write on a Call's connection
-	WSites   []CallSite
+	Serving   []*ssa.Function // contain a call to net.Listener.Accept
+	ConnEntry []*ssa.Function // started by `go` from a serving function (owns the connection's accounting)
+	ConnLoop  []*ssa.Function // the function (the go target or one of its callees) that holds the frame-read loop
+	Handle    *ssa.Function   // Service.HandleMessage (exported API)
+	WFuncs    []*ssa.Function // functions in package varlink that Write on a Call's connection
+	WSites    []CallSite
 }
 
 func isNamed(t types.Type, pkg, name string) bool {
@@ -110,6 +111,31 @@ func DiscoverRoles(p *Prog) *Roles {
 			}
 		}
 	}
+	// the frame-read loop may live in a callee of the go target
+	ro.ConnEntry = ro.ConnLoop
+	var loops []*ssa.Function
+	for _, e := range ro.ConnEntry {
+		found := false
+		var cands []*ssa.Function
+		for f := range ro.CG.Reach([]*ssa.Function{e}, false) {
+			cands = append(cands, f)
+		}
+		for _, f := range append([]*ssa.Function{e}, cands...) {
+			if found || fnPkgPath(f) != pkgVarlink {
+				continue
+			}
+			for _, cs := range callsIn(f, false) {
+				if isProtoReadBytes(cs) && blockInLoop(cs.Instr.Block()) {
+					loops = appendFn(loops, f)
+					found = true
+				}
+			}
+		}
+		if !found {
+			loops = appendFn(loops, e)
+		}
+	}
+	ro.ConnLoop = loops
 	// W sites: Write on a connection reached from a Call value (service side reply path)
 	for _, f := range p.FuncsOf(pkgVarlink) {
 		for _, cs := range callsIn(f, false) {
